@@ -114,7 +114,7 @@ func c18run(c *runner.Ctx) runner.Result {
 	nSlots := 5
 	// create the buckets up front (single-threaded) so that bucket creation races are C17's business
 	for i, k := range keys {
-		v := int64(900000 + i)
+		v := int64(9000000000) + int64(i) // far above every id*1000+k of the writers
 		if err := in.Write(k, mkCS(isVar(k), []int64{c18base + 100*3600}, []int64{v}, []int32{1}), isVar(k)); err != nil {
 			res.Inconclusive("setup write failed: " + err.Error())
 			return res
@@ -319,7 +319,7 @@ func c18run(c *runner.Ctx) runner.Result {
 			}
 			w := byV[row.a]
 			if w == nil {
-				if row.a >= 900000 && row.a < 900010 {
+				if row.a >= 9000000000 && row.a < 9000000010 {
 					continue // setup rows
 				}
 				res.Violation(fmt.Sprintf("row A=%d returned from %s was never written", row.a, rd.key), nil)
